@@ -196,6 +196,13 @@ pub fn judge_purl(ops: &[COp], spelling: &str) -> Option<Fail> {
 // --- generation ------------------------------------------------------------------------------
 
 fn rand_alg(r: &mut Rng) -> String {
+    if r.chance(1, 3) {
+        let a = r.pick(crate::spell::ALG_VOCABULARY).to_string();
+        return match r.below(3) {
+            0 => a.to_uppercase(),
+            _ => a,
+        };
+    }
     let n = *r.pick(&[0usize, 1, 2, 3, 4, 6, 10, 22, 23, 24, 30]);
     let mut s = String::new();
     for _ in 0..n {
